@@ -102,11 +102,26 @@ func c02Caller1(c *core.Ctx, a *c02Anchors, cl *c02Caller, flowIdx, strIdx, bool
 		c.Undecide("R-C02-5", cons+"|flow order", pos(c, fd), sprintf("caller of the flow loop with %d *Pipeline parameters (expected 0 or 2)", len(pparams)))
 		return len(pparams)
 	}
+	var namedRes types.Object // the handler's named string result, if any
+	if fd.Type.Results != nil && len(fd.Type.Results.List) == 1 && len(fd.Type.Results.List[0].Names) == 1 {
+		namedRes = f.Info.Defs[fd.Type.Results.List[0].Names[0]]
+	}
 	pm := parentMap(f.Body)
 	var sawObj, resObj types.Object
 	var sawID *ast.Ident
 	ok := true
 	for _, call := range cl.calls {
+		inLit := false
+		ast.Inspect(fd.Body, func(n ast.Node) bool {
+			if lit, ok := n.(*ast.FuncLit); ok && contains(lit, call) {
+				inLit = true
+			}
+			return true
+		})
+		if inLit {
+			c.Undecide("R-C02-5", cons+"|flow order", pos(c, call), "the flow loop is called from a function literal; the order in which the closure runs the flows is not analysed")
+			return len(pparams)
+		}
 		if len(call.Args) <= flowIdx {
 			c.Errorf("R-C02-5: flow loop call with too few arguments in %s", cons)
 			return len(pparams)
@@ -261,7 +276,11 @@ func c02Caller1(c *core.Ctx, a *c02Anchors, cl *c02Caller, flowIdx, strIdx, bool
 				badExit, whyExit = ex, "the handler returns without having run the "+r.name+" flow although its pipeline is not nil and no flow reported END"
 			}
 		}
-		if ex.Return == nil || len(ex.Return.Results) != 1 || c02Obj(f, ex.Return.Results[0]) != resObj {
+		switch {
+		case ex.Return != nil && len(ex.Return.Results) == 1 && c02Obj(f, ex.Return.Results[0]) == resObj:
+		case (ex.Return == nil || len(ex.Return.Results) == 0) && namedRes != nil && namedRes == resObj:
+			// named result with a bare return
+		default:
 			badRet = ex
 		}
 	}
